@@ -583,7 +583,7 @@ var c04CuePinned = []c04Pinned{
 	{name: "cue-bottom-literal", format: "cue", text: "n: {bot: _|_}\n"},
 	{name: "cue-bottom-default", format: "cue", text: "n: {d: int | *_|_, e: *_|_ | {_h: 1}}\n"},
 	{name: "cue-closed-and-open-structs", format: "cue", text: "#C: close({a: int, _h?: string})\ncc: #C | *{a: 1, _h: \"x\"}\ndd: close({a: int}) | *close({a: 1})\noo: {a: int, ...} | *{a: 1, b: 2, _c: 3, #Inner: 4}\nee: {} | *{}\nff: {...} | *{_only: 1}\n"},
-	// the inputs of the findings C04/cue/reference-to-hidden-member and C04/cue/reference-to-comprehension-variable
+	// fixed in /repo 0643960 (the default naming function panicked in selectorLabel): must end in ok/err (checks/c04.py FIXED_PINNED)
 	{name: "cue-ref-to-hidden-field", format: "cue", langs: []string{"go"}, text: "_h: string\na: _h\n"},
 	{name: "cue-ref-to-hidden-definition", format: "cue", langs: []string{"go"}, text: "_#H: {a: int}\nb: {c: _#H}\n"},
 	{name: "cue-ref-to-comprehension-variable", format: "cue", langs: []string{"go"}, text: "a: {\nfor k, v in {x: 1} {\"\\(k)f\": v}\n}\n"},
